@@ -123,8 +123,14 @@ def gen_curve(rng, n, family=None, scale=True):
     return family, pts
 
 
+BLOCKY = [255, 256, 257, 511, 512, 513, 1023, 1024, 1025, 1536, 2047, 2048, 2049, 4096, 4097]
+
+
 def draw_n(rng, tier):
     r = rng.random()
+    if r < (0.012 if tier == 'quick' else 0.03):
+        # long curves at and around block sizes (chunked / vectorised implementations change path there)
+        return rng.choice(BLOCKY[:9] if tier == 'quick' else BLOCKY)
     if r < 0.5:
         return rng.randint(2, 8)
     if r < 0.9 or tier == 'quick' and r < 0.97:
